@@ -15,6 +15,16 @@
       [kitty_memo e = true] gives the code before the fix and is used only to state the
       refutation of [derived_facts_fresh] for it.
 
+    Computations may be ABORTED: an exception (KeyboardInterrupt, termios.error/OSError)
+    raised inside [query_terminal] while the terminal's reply is awaited propagates out
+    of the getter.  The operations [GetCellSizeAbort | GetCellRatioAbort |
+    GetColorsAbort k | GetNameVersionAbort] are the getters called with such a fault
+    armed: the fault fires only if the call really queries the terminal (otherwise the
+    call returns normally); when it fires the caller sees [raised] and NOTHING is stored
+    ([_cell_size_cache] has a single write at the very end, [utils.py:471];
+    [cache.setdefault(arguments, func(...))] evaluates the call of [func] first,
+    [utils.py:184]).
+
     Part 1 is the sequential state machine, part 2 the history-level specification
     (the property oracle: no caches, only the provenance of entries), part 3 the [cached]
     decorator as a concurrent system over [lib/Sched.v].
@@ -94,9 +104,10 @@ Record state := {
   ratio : rmode;                       (* [term_image._cell_ratio] *)
   supp : option bool;                  (* [AutoCellRatio.is_supported] (sticky, one-shot) *)
   csc : cscache;
-  n_cs : nat;                          (* computations of the cell size (ioctl calls) *)
+  n_cs : nat;                          (* COMPLETED computations of the cell size (ioctl calls
+                                          of calls that were not aborted) *)
   m_col : nat -> option (Z * Z * Z);   (* memo table of [get_fg_bg_colors] *)
-  n_col : nat;                         (* executions of its body *)
+  n_col : nat;                         (* completed executions of its body *)
   m_nv : option (Z * Z);               (* memo table of [get_terminal_name_version] *)
   n_nv : nat;
   m_kit : option bool;                 (* memo table of [_is_on_kitty] (variant only) *)
@@ -133,8 +144,25 @@ Inductive op :=
 | EnableSwap | DisableSwap | EnableQueries | DisableQueries
 | SetRatio (m : rarg)
 | GetCellSize | GetCellRatio | GetColors (k : nat) | GetNameVersion | IsOnKitty
-| GetTsc.   (* a probe function decorated with [terminal_size_cached] whose body
+| GetTsc    (* a probe function decorated with [terminal_size_cached] whose body
                reports the terminal's pixel size *)
+(* the getters called while a fault is armed inside [query_terminal] (see the header) *)
+| GetCellSizeAbort | GetCellRatioAbort | GetColorsAbort (k : nat) | GetNameVersionAbort.
+
+(** the getter an armed call is a call of *)
+Definition plain (o : op) : op :=
+  match o with
+  | GetCellSizeAbort => GetCellSize
+  | GetCellRatioAbort => GetCellRatio
+  | GetColorsAbort k => GetColors k
+  | GetNameVersionAbort => GetNameVersion
+  | _ => o
+  end.
+Definition is_abort (o : op) : bool :=
+  match o with
+  | GetCellSizeAbort | GetCellRatioAbort | GetColorsAbort _ | GetNameVersionAbort => true
+  | _ => false
+  end.
 
 Definition same_cells (a b : tsize) : bool := (cols a =? cols b) && (rows a =? rows b).
 
@@ -148,6 +176,29 @@ Definition get_cs (e : tenv) (s : state) : state * (Z * Z) :=
     (set_csc s {| k_c := cols (tm s); k_r := rows (tm s); v_w := fst cs; v_h := snd cs |}
              (S (n_cs s)), cs).                    (* [utils.py:471] *)
 
+(** the ioctl gives a usable pixel size: [got_text_area_size] after [utils.py:433-441] *)
+Definition ioctl_ok (e : tenv) (t : tsize) : bool := io_px e && negb (has0 (xpx t, ypx t)).
+
+(** [get_cell_size()] with a fault armed inside [query_terminal]; [None] = the exception
+    propagated to the caller.  Branch for branch: no tty -> [None] at once
+    ([unix_tty_only]); cache hit -> returns, [utils.py:429-431]; the ioctl gives the size
+    -> no query, computes and stores; otherwise [query_terminal] is called,
+    [utils.py:447]: with queries disabled it returns [None] before touching the terminal
+    ([utils.py:617-618]: the fault does not fire, (0, 0) is stored), with queries enabled
+    the fault fires, the exception leaves the [with] block and line 471 — the ONLY write
+    to [_cell_size_cache] — is never reached. *)
+Definition get_cs_abort (e : tenv) (s : state) : state * option (Z * Z) :=
+  if negb (has_tty e) then (s, Some (0, 0))
+  else if (cols (tm s) =? k_c (csc s)) && (rows (tm s) =? k_r (csc s))
+  then (s, Some (v_w (csc s), v_h (csc s)))
+  else if ioctl_ok e (tm s) then
+    let cs := div_area (swap s) (xpx (tm s), ypx (tm s)) (tm s) in
+    (set_csc s {| k_c := cols (tm s); k_r := rows (tm s); v_w := fst cs; v_h := snd cs |}
+             (S (n_cs s)), Some cs)
+  else if qen s then (s, None)
+  else (set_csc s {| k_c := cols (tm s); k_r := rows (tm s); v_w := 0; v_h := 0 |}
+                (S (n_cs s)), Some (0, 0)).
+
 (** [get_cell_size() or (1, 2)] *)
 Definition ratio_of (cs : Z * Z) : Z * Z := if has0 cs then (1, 2) else cs.
 
@@ -156,6 +207,12 @@ Definition get_ratio (e : tenv) (s : state) : state * (Z * Z) :=
   match ratio s with
   | Fixed q => (s, q)
   | Dynamic => let (s', cs) := get_cs e s in (s', ratio_of cs)
+  end.
+
+Definition get_ratio_abort (e : tenv) (s : state) : state * option (Z * Z) :=
+  match ratio s with
+  | Fixed q => (s, Some q)
+  | Dynamic => let (s', r) := get_cs_abort e s in (s', option_map ratio_of r)
   end.
 
 (** [set_cell_ratio()], [__init__.py:155-205]; outcome 0 = set, 1 = TermImageError,
@@ -193,6 +250,27 @@ Definition get_col (e : tenv) (s : state) (k : nat) : state * (Z * Z * Z) :=
             (set_col s (upd (m_col s) k (Some v)) (S (n_col s)), v)
   end.
 
+(** the memoised getters with a fault armed: [cached_wrapper] evaluates
+    the call of [func] BEFORE [cache.setdefault], [utils.py:184]: a raising body
+    stores nothing.  The body queries (and the fault fires) iff there is a terminal and
+    queries are enabled ([query_terminal] is [unix_tty_only] and returns early when
+    disabled). *)
+Definition get_nv_abort (e : tenv) (s : state) : state * option (Z * Z) :=
+  match m_nv s with
+  | Some v => (s, Some v)
+  | None => if has_tty e && qen s then (s, None)
+            else let v := name_body e false in
+                 (set_nv s (Some v) (S (n_nv s)), Some v)
+  end.
+
+Definition get_col_abort (e : tenv) (s : state) (k : nat) : state * option (Z * Z * Z) :=
+  match m_col s k with
+  | Some v => (s, Some v)
+  | None => if has_tty e && qen s then (s, None)
+            else let v := col_body e false k in
+                 (set_col s (upd (m_col s) k (Some v)) (S (n_col s)), Some v)
+  end.
+
 Definition is_kitty (nv : Z * Z) : bool := fst nv =? KITTY.
 
 (** [TextImage._is_on_kitty()] *)
@@ -221,6 +299,10 @@ Definition view_ratio (q : Z * Z) : list Z := [fst q; snd q].
 Definition view_col (v : Z * Z * Z) : list Z := [fst (fst v); snd (fst v); snd v].
 Definition view_nv (v : Z * Z) : list Z := [fst v; snd v].
 Definition view_b (b : bool) : list Z := [if b then 1 else 0].
+(** what the caller of an aborted computation sees: the exception *)
+Definition raised : list Z := [-1].
+Definition view_opt {A} (f : A -> list Z) (r : option A) : list Z :=
+  match r with Some v => f v | None => raised end.
 
 (** one operation: new state and what the caller sees *)
 Definition step (e : tenv) (s : state) (o : op) : state * list Z :=
@@ -241,6 +323,10 @@ Definition step (e : tenv) (s : state) (o : op) : state * list Z :=
   | GetNameVersion => let (s', v) := get_nv e s in (s', view_nv v)
   | IsOnKitty => let (s', b) := get_kitty e s in (s', view_b b)
   | GetTsc => let (s', v) := get_tsc s in (s', view_ratio v)
+  | GetCellSizeAbort => let (s', r) := get_cs_abort e s in (s', view_opt view_cs r)
+  | GetCellRatioAbort => let (s', r) := get_ratio_abort e s in (s', view_opt view_ratio r)
+  | GetColorsAbort k => let (s', r) := get_col_abort e s k in (s', view_opt view_col r)
+  | GetNameVersionAbort => let (s', r) := get_nv_abort e s in (s', view_opt view_nv r)
   end.
 
 Definition run_from (e : tenv) (s : state) (ops : list op) : state :=
@@ -364,6 +450,37 @@ Definition h_probe (h : hstate) : hstate * (Z * Z) :=
   if live then (h, fresh_tsc (h_tm h))
   else (hset_tsc h (Some (h_tm h)) (S (h_ntsc h)), fresh_tsc (h_tm h)).
 
+(** *** Aborted computations, on the history alone.
+
+    A call made with a fault armed raises iff it has to compute (no live entry serves
+    it) and a fresh computation for the current terminal would wait for the terminal's
+    reply; then the history-level state does not change at all: an aborted computation
+    creates no entry and kills none.  Otherwise it is the plain call. *)
+Definition fresh_cs_waits (e : tenv) (t : tsize) (q : bool) : bool :=
+  has_tty e && negb (ioctl_ok e t) && q.
+Definition fresh_memo_waits (e : tenv) (q : bool) : bool := has_tty e && q.
+
+Definition h_cell_abort (e : tenv) (h : hstate) : hstate * option (Z * Z) :=
+  let live := match h_fill h with Some (t0, _) => same_cells t0 (h_tm h) | None => false end in
+  if negb live && fresh_cs_waits e (h_tm h) (h_qen h) then (h, None)
+  else let (h', cs) := h_cell e h in (h', Some cs).
+
+Definition h_get_ratio_abort (e : tenv) (h : hstate) : hstate * option (Z * Z) :=
+  match h_ratio h with
+  | Fixed q => (h, Some q)
+  | Dynamic => let (h', r) := h_cell_abort e h in (h', option_map ratio_of r)
+  end.
+
+Definition no_entry {A} (x : option A) : bool := match x with None => true | Some _ => false end.
+
+Definition h_name_abort (e : tenv) (h : hstate) : hstate * option (Z * Z) :=
+  if no_entry (h_nv h) && fresh_memo_waits e (h_qen h) then (h, None)
+  else let (h', v) := h_name e h in (h', Some v).
+
+Definition h_colors_abort (e : tenv) (h : hstate) (k : nat) : hstate * option (Z * Z * Z) :=
+  if no_entry (h_col h k) && fresh_memo_waits e (h_qen h) then (h, None)
+  else let (h', v) := h_colors e h k in (h', Some v).
+
 Definition hstep (e : tenv) (h : hstate) (o : op) : hstate * list Z :=
   match o with
   | Resize t => (hset_env h t (h_swap h) (h_qen h), [])
@@ -386,6 +503,10 @@ Definition hstep (e : tenv) (h : hstate) (o : op) : hstate * list Z :=
   | GetNameVersion => let (h', v) := h_name e h in (h', view_nv v)
   | IsOnKitty => let (h', v) := h_name e h in (h', view_b (is_kitty v))
   | GetTsc => let (h', v) := h_probe h in (h', view_ratio v)
+  | GetCellSizeAbort => let (h', r) := h_cell_abort e h in (h', view_opt view_cs r)
+  | GetCellRatioAbort => let (h', r) := h_get_ratio_abort e h in (h', view_opt view_ratio r)
+  | GetColorsAbort k => let (h', r) := h_colors_abort e h k in (h', view_opt view_col r)
+  | GetNameVersionAbort => let (h', r) := h_name_abort e h in (h', view_opt view_nv r)
   end.
 
 Definition hrun_from (e : tenv) (h : hstate) (ops : list op) : hstate :=
@@ -410,7 +531,8 @@ Fixpoint spec_trace (e : tenv) (h : hstate) (ops : list op) : list (list Z * lis
     made.  Likewise for the probe (which no toggle invalidates). *)
 Definition reads_cell (o : op) : bool :=
   match o with
-  | GetCellSize | GetCellRatio | SetRatio RAutoFixed | SetRatio RAutoDynamic => true
+  | GetCellSize | GetCellRatio | SetRatio RAutoFixed | SetRatio RAutoDynamic
+  | GetCellSizeAbort | GetCellRatioAbort => true
   | _ => false
   end.
 Definition is_tsc (o : op) : bool := match o with GetTsc => true | _ => false end.
